@@ -17,7 +17,7 @@ COMMON="-std=c17 -D_POSIX_C_SOURCE=200809L -DCIMBA_VERIF -fno-semantic-interposi
 case "$V" in
   rel) CC=gcc;   CFLAGS="-O3 -DNDEBUG -g1 $COMMON"; LDX="" ;;
   dbg) CC=gcc;   CFLAGS="-O1 -g $COMMON"; LDX="" ;;
-  san) CC=clang; CFLAGS="-O1 -g -DNDEBUG -fno-omit-frame-pointer -fsanitize=address,undefined,float-cast-overflow -fno-sanitize=alignment,null -fno-sanitize-recover=all $COMMON"; LDX="-fsanitize=address,undefined" ;;
+  san) CC=clang; CFLAGS="-O1 -g -DNDEBUG -fno-omit-frame-pointer -fsanitize=address,undefined,float-cast-overflow -fno-sanitize=alignment,null,object-size -fno-sanitize-recover=all $COMMON"; LDX="-fsanitize=address,undefined" ;;
   *) echo "unknown variant $V" >&2; exit 2 ;;
 esac
 
